@@ -77,6 +77,23 @@ func renderPage(c *core.Ctx, tpl *textwire.Template, name string, data map[strin
 	if !o.Panicked && fe == nil && !strings.Contains(name, "shuffle") {
 		poolAddEntry(c, pooledEval{src: name, data: data, want: outcomeText(o.Out, nil), tpl: tpl})
 	}
+	// a page that renders is written by Response as it is returned by String (every check that renders pages of a tree
+	// sees this entry point too); the tracer log of the caller is left as it was
+	if !o.Panicked && fe == nil && len(o.Out) < 64<<10 && !strings.Contains(name, "shuffle") && !strings.Contains(o.Out, "textwire-dump") && c.Check.ID != "C15" && c.Check.ID != "C20" {
+		traceMu.Lock()
+		saved := append([]model.Event(nil), traceLog...)
+		traceMu.Unlock()
+		rec := newRecorder()
+		var rerr error
+		c.Eval(1)
+		panicked := c.Guard(func() { rerr = tpl.Response(rec, name, data) })
+		traceMu.Lock()
+		traceLog = append(traceLog[:0], saved...)
+		traceMu.Unlock()
+		if !panicked && (rerr != nil || rec.body.String() != o.Out) {
+			c.Violation("response-differs-from-string", fmt.Sprintf("Response(%s) wrote %q (error %v), String returns %q", name, clipS(rec.body.String(), 300), rerr, clipS(o.Out, 300)), map[string]any{"page": name})
+		}
+	}
 	return o, fe
 }
 
